@@ -148,16 +148,67 @@ pub fn check_c16(tier: Tier, seed: u64) -> i32 {
     check.rule = "memsim histories (C05/C13 alphabet + get_or_fetch with ready / failing / never-resolving origin) on a single-shard Cache for all five algorithms; listener, weighter, memory filter and the Drop of every key and value handed to the cache are harness objects that (1) read the lock probe (shard RwLock or in-flight-table Mutex held => violation, exact, no timing) and (2) only if the probe is clear perform a generated re-entrant get/contains/insert/remove on the same shard. Non-trivial = re-entrant ops were performed from >= 3 kinds of callback and >= 2 kinds of leave reason occurred; distinct by fingerprint.".into();
     check.assumptions = vec![
         "single thread: a held lock observed by the probe is held by the caller itself".into(),
-        "hybrid-cache callbacks (admission filter, write-queue table) are probed by the hybsim checks; multi-threaded deadlock detection is not part of this check".into(),
+        "hybrid half: all foyer tasks run on the harness thread, so a lock seen by a callback is held by its caller; multi-threaded lock-order / deadlock detection is not part of this check".into(),
     ];
     // small fixed regression shapes first (cheap): each callback kind on each leave path
     let cases = tier.pick(30_000, 600_000);
     let len = tier.pick(40, 120);
     check.run_random("random", cases, || c16_case(len), exec_c16);
+    // hybrid half: the user callbacks of a HybridCache (weighter, event listener, admission filter, reinsertion
+    // filter) probe the memory shard locks, the in-flight table locks and the write-queue table locks
+    let cases = tier.pick(20_000, 400_000);
+    let hlen = tier.pick(40, 100);
+    check.run_random("hybrid", cases, || c16_hybrid_case(hlen), exec_c16_hybrid);
     check.finish()
 }
 
 #[allow(dead_code)]
 fn _algos() -> Vec<Algo> {
     Algo::defaults()
+}
+
+
+// ---------------------------------------------------------------------------------------------------- hybrid half
+
+pub fn c16_hybrid_case(max_len: usize) -> impl proptest::strategy::Strategy<Value = crate::hybchecks::HybCase> {
+    use proptest::prelude::*;
+    (crate::hybchecks::c01_case(max_len, crate::hybchecks::CfgDomain::default()), any::<bool>(), any::<bool>()).prop_map(|(mut case, small, reinsert)| {
+        if small {
+            // a device that wraps quickly: reclaim, reinsertion filter and block reuse happen
+            case.cfg.blocks = 4;
+            case.cfg.block_size = 16 * 1024;
+            case.cfg.flushers = 1;
+            case.cfg.clean_block_threshold = 1;
+            case.cfg.buffer_pool_size = 48 * case.cfg.block_size;
+            case.cfg.mem_capacity = case.cfg.mem_capacity.min(12_000);
+        }
+        if reinsert {
+            case.cfg.reinsert = vec![1];
+        }
+        // drop-without-close would need the probe's clone of the cache to be released first: not generated here
+        case
+    })
+}
+
+pub fn exec_c16_hybrid(case: &crate::hybchecks::HybCase) -> CaseReport {
+    let case = crate::hybchecks::normalize(case);
+    let probe = std::sync::Arc::new(crate::hybsim::LockProbe::default());
+    crate::hybsim::probe_next_sim(probe.clone());
+    let trace = crate::hybsim::HybSim::run(case.cfg.clone(), &case.ops);
+    let violations = probe.violations.lock().clone();
+    let kinds: Vec<&'static str> = probe.kinds.lock().iter().copied().collect();
+    let mut failure = None;
+    if let Some(v) = violations.first() {
+        let who = v.split(' ').next().unwrap_or("callback").to_string();
+        failure = Some(Failure::new(format!("hybrid:{who}-under-lock"), format!("{v} ({} observations in this history)", violations.len())));
+    } else if let Some(p) = &trace.panicked {
+        failure = Some(Failure::new("hybrid:panic", p.clone()));
+    }
+    CaseReport {
+        nontrivial: kinds.len() >= 3,
+        classes: kinds,
+        discarded: false,
+        failure,
+        tolerated: vec![],
+    }
 }
